@@ -2,7 +2,7 @@
    Statements only; proofs in Lang/ModProofs.v, Lang/ModGroup.v, Gates/InvCheck.v.  The library
    inverse obligations are discharged against GatesGen.v, regenerated from maps.py on every run. *)
 From Coq Require Import ZArith List Bool String Permutation.
-From Verif Require Import BGate PyVal Ast State Unroll ExternalProofs GateCheck GatesGen GateSpecGen GateLib KnownBad InvCheck ModProofs ModGroup Depth DepthModel FixProofs ParamProofs ModUnrollProofs GateDefProofs.
+From Verif Require Import BGate PyVal Ast State Unroll ExternalProofs GateCheck GatesGen GateSpecGen GateLib KnownBad InvCheck ModProofs ModGroup Depth DepthModel FixProofs ParamProofs BroadcastProofs ModUnrollProofs GateDefProofs.
 Import ListNotations.
 
 (* (1) library gates: for every name the inverse table accepts (and that has a defining unitary),
@@ -106,19 +106,21 @@ Print Assumptions C06_negative_power_meaning.
 Eval vm_compute in ("c06_inverse_names_are"%string, c06_inverse_names).
 
 (* MODIFIED BASIS GATES IN WHOLE PROGRAMS (Lang/ModUnrollProofs.v, inside the judgement of Props/C01.v).  A statement
-       m1 @ m2 @ ... @ g(params) r[i], ...;      mi ::= inv | pow(k), k an integer literal of any sign;
+       m1 @ m2 @ ... @ g(params) operands;       mi ::= inv | pow(k), k an integer literal of any sign; operands registers,
+       literal slices or literal bits, cut into consecutive groups of g's arity (`tgs`), one application per group;
        params closed expressions over literals, pi / tau / euler and the operators (`cparams` computes their values)
    on ANY library gate g that no definition shadows collapses to a count p (the product of the |k|) and a flag inv (the parity
    of the `inv`s and the negative k); unroll() emits p copies of what the operation tables lower g -- or, when inv holds, the
    inverse of g -- to (`lower_app`, computed from the tables as the visitor does: self-inverse gates stay, s <-> sdg, t <-> tdg,
    rotations negate their angle, cnot gives cx, u3 its rz / rx sequence, ...); pow(0) emits nothing.  One statement, any modifier list, any state that holds the registers: *)
-Theorem C06_modified_basis_gate_unrolls_to_repetitions check_only visit_rec call_rec env s mods name args vs bs p inv stmts :
+Theorem C06_modified_basis_gate_unrolls_to_repetitions check_only visit_rec call_rec env s mods name args vs qs bss p inv tgs sts :
   Regs env s -> smemk name (gates s) = false -> cmods mods 1 false = Some (p, inv) -> (p < 10000)%Z ->
-  lower_app name vs bs inv = Some stmts -> cparams args = Some vs ->
-  forallb (in_reg (e_q env)) bs = true -> distinctb [] bs = true ->
-  exists s1, visit_generic_gate check_only [] visit_rec call_rec mods name args (map qarg_of bs) s
-             = Ok ((if check_only then [] else copies (Z.to_nat p) stmts), s1) /\ DE s s1 /\ Dstep s s1 (repeat (map Qr bs) (Z.to_nat p)).
-Proof. exact (modified_gate_fix check_only visit_rec call_rec env s mods name args vs bs p inv stmts). Qed.
+  mapM (opnd_bits (e_q env)) qs = Some bss -> distinctb [] (List.concat bss) = true ->
+  lower_app env name vs (List.concat bss) inv = Some (tgs, sts) -> cparams args = Some vs ->
+  exists s1, visit_generic_gate check_only [] visit_rec call_rec mods name args qs s
+             = Ok ((if check_only then [] else copies (Z.to_nat p) (List.concat sts)), s1) /\ DE s s1 /\
+             Dstep s s1 (copies (Z.to_nat p) (map (map Qr) tgs)).
+Proof. exact (modified_gate_fix check_only visit_rec call_rec env s mods name args vs qs bss p inv tgs sts). Qed.
 Print Assumptions C06_modified_basis_gate_unrolls_to_repetitions.
 
 (* the count and the flag do not depend on the order of the modifiers *)
